@@ -5,7 +5,7 @@
      globals_isolated (+ call_enters_defining_module, global_write_is_local, attrs_frame),
      builtins_in_every_module, and the refutations at the frame limit / for main-only names. *)
 From Coq Require Import List String NArith Bool Arith Lia.
-From YV Require Import Modules.
+From YV Require Import Modules ModuleSpec ModLang.
 Import ListNotations.
 Open Scope list_scope.
 
@@ -1066,3 +1066,171 @@ Proof. vm_compute. split; reflexivity. Qed.
 
 Print Assumptions import_at_frame_limit_refuted.
 Print Assumptions main_only_name_not_in_module_refuted.
+
+(* ---------------------------------------------------------------------------------------------- *)
+(* Every run of the mini-language's Mechanism evaluator is a run of the event machine: whatever state
+   ModLang.eval_mech is in, some event sequence from the initial state leads there.  Hence every theorem
+   above ("over every event sequence") holds for every program of the mini-language, any fuel. *)
+Open Scope list_scope.
+
+Lemma run_events_app SrcId Body ld cp B fm st a b :
+  run_events SrcId Body ld cp B fm st (a ++ b) = run_events SrcId Body ld cp B fm (run_events SrcId Body ld cp B fm st a) b.
+Proof. revert st; induction a as [|e a IH]; simpl; intros st; auto. Qed.
+
+Section MechReach.
+  Variable prog : program.
+  Variable cm : list (list (list string)).
+  Variable B : list name.
+  Variable fm : nat.
+  Variable core : list name.
+
+  Definition reach (st : state) : Prop :=
+    exists evs, st = run_events nat (list top) (prog_loader prog) (prog_compiler prog cm) B fm
+                                (init_state (main_attrs B core)) evs.
+  Definition RX (x : xst) : Prop := reach (ms x).
+
+  Definition res_ok (r : res) : Prop :=
+    match r with
+    | RNormal _ x | RUnwound _ _ x | RDead _ x => RX x
+    | _ => True
+    end.
+  Definition sres_ok (r : sres) : Prop :=
+    match r with SOk x _ | SUnw _ _ x | SDead _ x => RX x end.
+
+  Lemma reach_step st e : reach st -> reach (fst (mstep prog cm B fm st e)).
+  Proof.
+    intros [evs ->]. exists (evs ++ [e]). rewrite run_events_app. reflexivity.
+  Qed.
+
+  Lemma do_step_ok x e : RX x -> sres_ok (do_step prog cm B fm x e).
+  Proof.
+    intros H. unfold do_step. pose proof (reach_step (ms x) e H) as H'.
+    destruct (mstep prog cm B fm (ms x) e) as [s' o]. simpl in H'.
+    destruct o; simpl; auto. destruct (hids x); simpl; auto.
+  Qed.
+
+  Lemma bind_s_ok r k : sres_ok r -> (forall x o, RX x -> res_ok (k x o)) -> res_ok (bind_s r k).
+  Proof. intros Hr Hk. destruct r; simpl in *; auto. Qed.
+
+  Lemma get_global_ok x nm k :
+    RX x -> (forall x' v, RX x' -> res_ok (k x' v)) -> res_ok (get_global prog cm B fm x nm k).
+  Proof.
+    intros Hx Hk. unfold get_global. apply bind_s_ok; [apply do_step_ok; auto|].
+    intros x' o Hx'. destruct o; simpl; auto.
+  Qed.
+
+  Lemma resolve_ok env x nm k :
+    RX x -> (forall x' v, RX x' -> res_ok (k x' v)) -> res_ok (resolve prog cm B fm env x nm k).
+  Proof. intros Hx Hk. unfold resolve. destruct (lookup_local env nm); auto. apply get_global_ok; auto. Qed.
+
+  Lemma bind_alias_ok env x nm v : RX x -> res_ok (bind_alias prog cm B fm env x nm v).
+  Proof.
+    intros Hx. unfold bind_alias. destruct env; simpl; auto.
+    apply bind_s_ok; [apply do_step_ok; auto|]. intros x' _ Hx'. exact Hx'.
+  Qed.
+
+  Lemma note_ok x nm : RX x -> RX (note_main_only x nm).
+  Proof.
+    intros H. unfold note_main_only. destruct (Nat.eqb _ _); auto. destruct (alookup _ _); auto.
+  Qed.
+
+  Arguments get_global : simpl never.
+  Arguments resolve : simpl never.
+  Arguments bind_s : simpl never.
+  Arguments do_step : simpl never.
+  Arguments bind_alias : simpl never.
+  Arguments note_main_only : simpl never.
+
+  Lemma exec_ok : forall fuel,
+    (forall l env x, RX x -> res_ok (exec prog cm B fm fuel l env x)) /\
+    (forall s env x, RX x -> res_ok (exec1 prog cm B fm fuel s env x)) /\
+    (forall env x w, RX x -> res_ok (call_value prog cm B fm fuel env x w)) /\
+    (forall ts src x, RX x -> res_ok (exec_tops prog cm B fm fuel ts src x)).
+  Proof.
+    induction fuel as [|fuel (IHe & IH1 & IHc & IHt)].
+    { repeat split; intros; simpl; exact I. }
+    repeat split.
+    - intros l env x Hx. destruct l as [|s rest]; simpl; [exact Hx|].
+      pose proof (IH1 s env x Hx) as H. destruct (exec1 prog cm B fm fuel s env x); simpl in *; auto.
+    - intros s env x Hx. destruct s; simpl.
+      + apply get_global_ok; auto. intros x1 _ H1. exact H1.
+      + apply get_global_ok; auto. intros x1 _ H1. apply get_global_ok; auto. intros x2 w H2. exact H2.
+      + apply bind_s_ok; [apply do_step_ok; auto|]. intros x1 _ H1. exact H1.
+      + apply bind_s_ok; [apply do_step_ok; auto|]. intros x1 o H1. destruct o; simpl; auto.
+        * apply bind_s_ok; [apply do_step_ok; auto|]. intros x2 _ H2. apply bind_alias_ok; auto.
+        * pose proof (IHt b (src_of_mod x1 id) x1 H1) as Ht.
+          destruct (exec_tops prog cm B fm fuel b (src_of_mod x1 id) x1); simpl in *; auto.
+          apply bind_s_ok; [apply do_step_ok; auto|]. intros x3 _ H3.
+          apply bind_s_ok; [apply do_step_ok; auto|]. intros x4 _ H4. apply bind_alias_ok; auto.
+      + apply get_global_ok; auto. intros x1 _ H1. apply resolve_ok; auto. intros x2 w H2.
+        destruct w; simpl; auto. apply bind_s_ok; [apply do_step_ok; auto|]. intros x3 o H3.
+        destruct o; simpl; auto.
+      + apply resolve_ok; auto. intros x1 w H1. destruct w; simpl; auto.
+        apply bind_s_ok; [apply do_step_ok; auto|]. intros x2 _ H2. exact H2.
+      + apply get_global_ok; auto. intros x1 w H1. apply IHc; auto.
+      + apply resolve_ok; auto. intros x1 w H1. destruct w; simpl; auto.
+        apply bind_s_ok; [apply do_step_ok; auto|]. intros x2 o H2. destruct o; simpl; auto. apply IHc; auto.
+      + apply bind_s_ok; [apply do_step_ok; auto|]. intros; simpl; exact I.
+      + apply get_global_ok; auto. intros x1 _ H1.
+        destruct k as [|[|[|[|[|[|[|]]]]]]]; try (destruct p);
+          repeat (first [apply get_global_ok; [auto using note_ok|]; intros | exact I | assumption | apply note_ok; assumption]).
+      + apply bind_s_ok; [apply do_step_ok; auto|]. intros x1 _ H1.
+        match goal with |- res_ok (match exec _ _ _ _ _ ?bd ?ev ?xx with _ => _ end) =>
+          assert (Hb : res_ok (exec prog cm B fm fuel bd ev xx)) by (apply IHe; exact H1);
+          destruct (exec prog cm B fm fuel bd ev xx) as [env' x2|h e x2|e x2| |why]; simpl in *; auto
+        end.
+        * apply bind_s_ok; [apply do_step_ok; auto|]. intros x3 _ H3. exact H3.
+        * destruct (Nat.eqb h (nexth x)); simpl; auto.
+          apply get_global_ok; auto. intros x3 _ H3. apply get_global_ok; auto. intros x4 _ H4.
+          apply get_global_ok; [exact H4|]. intros x6 _ H6. apply get_global_ok; auto. intros x7 _ H7.
+          apply get_global_ok; auto. intros x8 _ H8. exact H8.
+      + pose proof (IHe body ([] :: env) x Hx) as Hb.
+        destruct (exec prog cm B fm fuel body ([] :: env) x); simpl in *; auto.
+    - intros env x w Hx. simpl. destruct w; simpl; auto.
+      destruct (find_fn prog f) as [body|]; simpl; auto.
+      apply bind_s_ok; [apply do_step_ok; auto|]. intros x1 _ H1.
+      pose proof (IHe body [[]] x1 H1) as Hb.
+      destruct (exec prog cm B fm fuel body [[]] x1); simpl in *; auto.
+      apply bind_s_ok; [apply do_step_ok; auto|]. intros x3 _ H3. exact H3.
+    - intros ts src x Hx. destruct ts as [|t rest]; simpl; [exact Hx|].
+      assert (Hr : res_ok (match t with
+                           | TStmt s => exec1 prog cm B fm fuel s [] x
+                           | TDef v n => bind_s (do_step prog cm B fm x (EDefineGlobal (var_name v) (VNum n))) (fun x1 _ => RNormal [] x1)
+                           | TFn f _ => bind_s (do_step prog cm B fm x (EDefineGlobal (fn_name f) (VFn (active (ms x)) (fn_key src f)))) (fun x1 _ => RNormal [] x1)
+                           end)).
+      { destruct t.
+        - apply IH1; auto.
+        - apply bind_s_ok; [apply do_step_ok; auto|]. intros x1 _ H1. exact H1.
+        - apply bind_s_ok; [apply do_step_ok; auto|]. intros x1 _ H1. exact H1. }
+      destruct (match t with TStmt s => _ | TDef v n => _ | TFn f _ => _ end); simpl in *; auto.
+  Qed.
+
+  Theorem mech_final_state_reachable fuel st :
+    final_state prog cm B fm fuel core = Some st -> reach st.
+  Proof.
+    unfold final_state. destruct prog as [|[ts| |k] rest]; try discriminate.
+    assert (H0 : RX (mech_init B core)) by (exists []; reflexivity).
+    destruct (exec_ok fuel) as (_ & _ & _ & Ht). specialize (Ht ts 0 _ H0).
+    destruct (exec_tops _ _ _ _ fuel ts 0 (mech_init B core)); simpl in *; intros E; inversion E; subst; auto.
+  Qed.
+
+  (* e.g.: whatever program runs, whatever the fuel, no module body is started twice *)
+  Corollary program_body_runs_at_most_once fuel st :
+    final_state prog cm B fm fuel core = Some st ->
+    NoDup (ran st) /\ NoDup (map (fun id => m_path (getmod st id)) (ran st)).
+  Proof.
+    intros H. destruct (mech_final_state_reachable fuel st H) as [evs ->].
+    apply body_runs_at_most_once. intros b Hb. unfold main_attrs.
+    apply main_attrs_have_builtins; auto.
+  Qed.
+
+  Corollary program_globals_isolated fuel st :
+    final_state prog cm B fm fuel core = Some st -> dead st = None -> active st = top_mod st.
+  Proof.
+    intros H. destruct (mech_final_state_reachable fuel st H) as [evs ->].
+    apply globals_isolated. intros b Hb. unfold main_attrs. apply main_attrs_have_builtins; auto.
+  Qed.
+End MechReach.
+
+Print Assumptions mech_final_state_reachable.
+Print Assumptions program_body_runs_at_most_once.
